@@ -250,6 +250,12 @@ class Tr:
         fail(n, 'truthiness of type %s' % ta)
 
     def attribute(self, n):
+        # M.T : transpose of a matrix-typed expression
+        if n.attr == 'T':
+            a, ta = self.e(n.value)
+            if ta == 'mat':
+                return '(matT %s)' % a, 'mat'
+            fail(n, '.T of a non-matrix')
         # self.X , self.model.X
         chain = []
         cur = n
@@ -306,6 +312,8 @@ class Tr:
             return '(vmap (%s %s) %s)' % (op, a, b), 'vec'
         if ta == 'vec' and tb == 'T':
             return '(vmap (fun y_ => %s y_ %s) %s)' % (op, b, a), 'vec'
+        if ta == 'T' and tb == 'mat' and op == 'mul':
+            return '(map (vmap (mul %s)) %s)' % (a, b), 'mat'
         fail(n, 'binop types %s %s' % (ta, tb))
 
     def cmp(self, n, l, op, r):
@@ -556,6 +564,8 @@ class Tr:
             (a, ta), (b, tb) = self.e(args[0]), self.e(args[1])
             if (ta, tb) == ('mat', 'vec'):
                 return '(matvec %s %s)' % (a, b), 'vec'
+            if (ta, tb) == ('mat', 'mat'):
+                return '(matmat %s %s)' % (a, b), 'mat'
             if (ta, tb) == ('vec', 'vec'):
                 return '(dot %s %s)' % (a, b), 'T'
             fail(n, 'np.dot types')
